@@ -20,41 +20,75 @@ theorem sb21_ctorOk_of_wf (kb : KeyBlob) (h : kb.WF) : kb.ctorOk = true := by
     otfadStartAddrMask]
   omega
 
-theorem sb21_wf_of_ctorOk (kb : KeyBlob) (h : kb.ctorOk = true) (hk : kb.key.length = 16) (hc : kb.ctr.length = 8)
-    (he : kb.end_ = 0 → kb.flags = 0) : kb.WF := by
+theorem sb21_wf_of_ctorOk (kb : KeyBlob) (h : kb.ctorOk = true) (he : kb.end_ = 0 → kb.flags = 0) : kb.WF := by
   simp only [KeyBlob.ctorOk, otfadKeySize, otfadCtrSize, otfadKeyFlagMask, otfadStartAddrMask, Bool.and_eq_true,
-    decide_eq_true_eq, beq_iff_eq] at h
-  obtain ⟨⟨⟨⟨_, h1⟩, h2⟩, h3⟩, h4⟩ := h
+    decide_eq_true_eq, beq_iff_eq, Bool.not_eq_true', Bool.or_eq_false_iff, bne_eq_false_iff_eq] at h
+  obtain ⟨⟨⟨⟨⟨hk, hc⟩, h1⟩, h2⟩, h3⟩, h4⟩ := h
   exact ⟨hk, hc, by omega, h1, by omega, by omega, he⟩
-
-/-- what the constructor really guarantees about the sizes: at least one of them is right -/
-theorem sb21_ctor_lengths (kb : KeyBlob) (h : kb.ctorOk = true) : kb.key.length = 16 ∨ kb.ctr.length = 8 := by
-  simp only [KeyBlob.ctorOk, otfadKeySize, otfadCtrSize, Bool.and_eq_true, Bool.not_eq_true', Bool.and_eq_false_iff,
-    bne_eq_false_iff_eq] at h
-  exact h.1.1.1.1
 
 /-! ### `encrypt` -/
 
-theorem sb21_and_flags (e : Nat) (h : e % 4 = 3) : e &&& otfadFlagADE ≠ 0 ∧ e &&& otfadFlagVLD ≠ 0 := by
-  have h1 : e &&& 1 = e % 2 := Nat.and_one_is_mod e
-  have h3 : e.testBit 1 = true := by
-    rw [Nat.testBit_eq_decide_div_mod_eq]
-    simp; omega
-  have h2 : (e &&& 2).testBit 1 = true := by rw [Nat.testBit_and, h3]; decide
-  simp only [otfadFlagADE, otfadFlagVLD, h1]
-  constructor
-  · intro h0
-    rw [h0] at h2
-    simp at h2
-  · omega
+theorem sb21_and3 (e : Nat) : e &&& 3 = e % 4 := Nat.and_two_pow_sub_one_eq_mod e 2
 
-theorem sb21_blob_isEncrypted (s e : Nat) (k ct : Bytes) : (Sb21.blob s e k ct).isEncrypted = true := by
-  simp [Sb21.blob, KeyBlob.isEncrypted, otfadFlagADE, otfadFlagVLD]
+theorem sb21_and_flags (e : Nat) : (e &&& otfadFlagADE ≠ 0 ∧ e &&& otfadFlagVLD ≠ 0) ↔ e % 4 = 3 := by
+  have h1 : e &&& 1 = e % 2 := Nat.and_one_is_mod e
+  have hb : (e &&& 2).testBit 1 = e.testBit 1 := by
+    have h21 : Nat.testBit 2 1 = true := by decide
+    rw [Nat.testBit_and, h21, Bool.and_true]
+  have ht : e.testBit 1 = decide (e / 2 % 2 = 1) := by
+    rw [Nat.testBit_eq_decide_div_mod_eq]
+  have h2 : e &&& 2 ≠ 0 ↔ e / 2 % 2 = 1 := by
+    constructor
+    · intro hne
+      by_cases hd : e / 2 % 2 = 1
+      · exact hd
+      · exfalso
+        apply hne
+        apply Nat.eq_of_testBit_eq
+        intro i
+        rw [Nat.testBit_and, Nat.zero_testBit]
+        by_cases hi : i = 1
+        · subst hi; rw [ht]; simp [hd]
+        · have : (2 : Nat).testBit i = false := by
+            have := Nat.testBit_two_pow_of_ne (n := 1) (m := i) (by omega)
+            simpa using this
+          simp [this]
+    · intro hd h0
+      rw [h0] at hb
+      rw [ht] at hb
+      simp [hd] at hb
+  simp only [otfadFlagADE, otfadFlagVLD, h1, h2]
+  omega
+
+/-- the flags exported by `keywrap` make the blob "encrypting" exactly when `encrypt` encrypts -/
+theorem sb21_kw_isEncrypted (s e : Nat) (k ct : Bytes) :
+    (Sb21.blob s e k ct (e &&& otfadKeyFlagMask)).isEncrypted = decide (e % 4 = 3) := by
+  have h7 : (e &&& 7) &&& 3 = e % 4 := by
+    rw [Nat.and_assoc]; exact sb21_and3 e
+  simp only [Sb21.blob, KeyBlob.isEncrypted, otfadFlagADE, otfadFlagVLD, otfadKeyFlagMask]
+  have : (2 ||| 1 : Nat) = 3 := by decide
+  rw [this, h7]
+  by_cases h : e % 4 = 3 <;> simp [h]
+
+theorem sb21_containsAddr_flags (s e : Nat) (k ct : Bytes) (f g : Nat) (a : Nat) :
+    (Sb21.blob s e k ct f).containsAddr a = (Sb21.blob s e k ct g).containsAddr a := rfl
+
+theorem sb21_encBlocks_flags (s e : Nat) (k ct : Bytes) (f g : Nat) (swap : Bool) :
+    ∀ (n cv : Nat) (d : Bytes), (Sb21.blob s e k ct f).encBlocks c swap n cv d = (Sb21.blob s e k ct g).encBlocks c swap n cv d
+  | 0, _, _ => rfl
+  | n + 1, cv, d => by
+    simp only [KeyBlob.encBlocks]
+    rw [sb21_encBlocks_flags s e k ct f g swap n]
+    rfl
+
+/-- the blob `keywrap` exports / the blob `encrypt` builds -/
+abbrev sb21K (s e : Nat) (k ct : Bytes) : KeyBlob := Sb21.blob s e k ct (e &&& otfadKeyFlagMask)
+abbrev sb21E (s e : Nat) (k ct : Bytes) : KeyBlob := Sb21.blob s e k ct (otfadFlagVLD ||| otfadFlagADE)
 
 /-- all the proofs need to know about the padding unit of `_encrypt` (512 in the source): a positive multiple of 16 -/
 theorem sb21_align_ok : sb21EncryptAlign % 16 = 0 ∧ 0 < sb21EncryptAlign := by decide
 
-theorem sb21_zeroPad512_len (d : Bytes) : (zeroPad sb21EncryptAlign d).length % 16 = 0 := by
+theorem sb21_zeroPad_len (d : Bytes) : (zeroPad sb21EncryptAlign d).length % 16 = 0 := by
   have h1 := zeroPad_length_mod sb21EncryptAlign sb21_align_ok.2 d
   have h2 := sb21_align_ok.1
   generalize sb21EncryptAlign = n at *
@@ -62,66 +96,102 @@ theorem sb21_zeroPad512_len (d : Bytes) : (zeroPad sb21EncryptAlign d).length % 
   have : l % 16 = l % n % 16 := (Nat.mod_mod_of_dvd l (Nat.dvd_of_mod_eq_zero h2)).symm
   omega
 
-/-- the full-strength statement (for EVERY load address inside the window) is FALSE on the current code — see the
-    refuting `example` in Properties/C13.lean; what holds needs `address = start`: -/
-theorem sb21_encrypt_inverts_partial (h : CryptoLaws c) (start end_ : Nat) (key ctr : Bytes) (swap : Bool)
-    (address : Nat) (data : Bytes) (hwf : (Sb21.blob start end_ key ctr).WF) (hfl : end_ % 4 = 3)
-    (haddr : address = start)
-    (hfit : Sb21.fits (Sb21.blob start end_ key ctr) address (zeroPad sb21EncryptAlign data).length) :
+/-- SB2.1 `encrypt (id) { load data > address; }` followed by `keywrap (id)`: the engine programmed with the context of
+    the WRAPPED blob (flags = low bits of `end`) reads the data back at the LOAD address — for every 16-byte aligned load
+    address whose padded data fit the blob's window, whether the `end` value enables decryption or not -/
+theorem sb21_encrypt_inverts (h : CryptoLaws c) (start end_ : Nat) (key ctr : Bytes) (swap : Bool)
+    (address : Nat) (data : Bytes) (hwf : (Sb21.blob start end_ key ctr (end_ &&& otfadKeyFlagMask)).WF)
+    (ha16 : address % 16 = 0) (hne : 0 < data.length)
+    (hfit : Sb21.fits (Sb21.blob start end_ key ctr (end_ &&& otfadKeyFlagMask)) address
+      (zeroPad sb21EncryptAlign data).length) :
     ∃ ct, Sb21.encrypt c start end_ key ctr swap address data = .ok ct ∧
-      (otfadHwReadAll c [(Sb21.blob start end_ key ctr).ctx] swap address ct).take data.length = data := by
-  subst haddr
-  have hkb : (Sb21.blob address end_ key ctr).start = address := rfl
-  have hm16 := sb21_zeroPad512_len data
-  have hpad : zeroPad 16 (zeroPad sb21EncryptAlign data) = zeroPad sb21EncryptAlign data := zeroPad_of_aligned 16 _ hm16
-  have ha16 : address % 16 = 0 := by have := hwf.start_al; rw [hkb] at this; omega
-  have hn : (zeroPad sb21EncryptAlign data).length / 16 = blocksFor (zeroPad sb21EncryptAlign data).length := by
-    simp only [blocksFor]; omega
-  have henc : Sb21.encrypt c address end_ key ctr swap address data =
-      .ok ((Sb21.blob address end_ key ctr).encBlocks c swap (blocksFor (zeroPad sb21EncryptAlign data).length) address
-        (zeroPad 16 (zeroPad sb21EncryptAlign data))) := by
-    simp only [Sb21.encrypt, sb21_ctorOk_of_wf _ hwf, Bool.not_true, Bool.false_eq_true, if_false,
-      sb21_and_flags end_ hfl, ne_eq, not_false_eq_true, and_self, if_true,
-      KeyBlob.encryptImage, otfadEncBlockSize, hpad, hkb, hwf.ctr_len, validAesKeyLen, hwf.key_len, hn]
-    simp [ha16]
-  have hact : ∀ j, j < blocksFor (zeroPad sb21EncryptAlign data).length →
-      otfadActive [Sb21.blob address end_ key ctr] (address + 16 * j) = some (Sb21.blob address end_ key ctr) := by
-    intro j hj
-    simp [otfadActive, hfit j hj, sb21_blob_isEncrypted]
-  refine ⟨_, henc, ?_⟩
-  rw [otfad_encBlocks_spec [Sb21.blob address end_ key ctr] swap _ _ address (zeroPad sb21EncryptAlign data) rfl hact]
-  have hwf1 : ∀ kb ∈ [Sb21.blob address end_ key ctr], kb.WF := by
+      (otfadHwReadAll c [(Sb21.blob start end_ key ctr (end_ &&& otfadKeyFlagMask)).ctx] swap address ct).take data.length
+        = data := by
+  have hwf1 : ∀ kb ∈ [(sb21K start end_ key ctr)], kb.WF := by
     intro kb hkb'; simp at hkb'; subst hkb'; exact hwf
-  have hd1 : BlobsDisjoint [Sb21.blob address end_ key ctr] := by simp [BlobsDisjoint]
-  have hhw := otfad_spec_hw h [Sb21.blob address end_ key ctr] hwf1 hd1 address ha16 (zeroPad sb21EncryptAlign data) swap
-  simp only [List.map_cons, List.map_nil] at hhw
-  have hle : data.length ≤ (zeroPad sb21EncryptAlign data).length := by rw [zeroPad_length]; omega
-  have : (otfadHwReadAll c [(Sb21.blob address end_ key ctr).ctx] swap address
-      (otfadSpec c [Sb21.blob address end_ key ctr] swap (blocksFor (zeroPad sb21EncryptAlign data).length) address
-        (zeroPad sb21EncryptAlign data))).take data.length =
-      ((otfadHwReadAll c [(Sb21.blob address end_ key ctr).ctx] swap address
-        (otfadSpecImage c [Sb21.blob address end_ key ctr] swap address (zeroPad sb21EncryptAlign data))).take
-          (zeroPad sb21EncryptAlign data).length).take data.length := by
-    rw [List.take_take, Nat.min_eq_left hle]; rfl
-  rw [this, hhw, zeroPad_take_self]
+  have hd1 : BlobsDisjoint [(sb21K start end_ key ctr)] := by simp [BlobsDisjoint]
+  by_cases hfl : end_ % 4 = 3
+  · -- encrypted with the counter bound to the load address
+    have hEwf : (sb21E start end_ key ctr).WF := ⟨hwf.key_len, hwf.ctr_len, hwf.start_al, hwf.range, hwf.end_lt, (by show (otfadFlagVLD ||| otfadFlagADE) < 8; decide),
+      fun h0 => by have : end_ = 0 := h0; omega⟩
+    have hm16 := sb21_zeroPad_len data
+    have hle : data.length ≤ (zeroPad sb21EncryptAlign data).length := by rw [zeroPad_length]; omega
+    have hpad : zeroPad 16 (zeroPad sb21EncryptAlign data) = zeroPad sb21EncryptAlign data :=
+      zeroPad_of_aligned 16 _ hm16
+    have hb0 : 0 < blocksFor (zeroPad sb21EncryptAlign data).length := by simp only [blocksFor]; omega
+    have hcE : (sb21E start end_ key ctr).containsAddr address = true := by
+      have := hfit 0 hb0
+      simp only [Nat.mul_zero, Nat.add_zero] at this
+      exact this
+    have henc : Sb21.encrypt c start end_ key ctr swap address data =
+        .ok ((sb21K start end_ key ctr).encBlocks c swap (blocksFor (zeroPad sb21EncryptAlign data).length) address
+          (zeroPad 16 (zeroPad sb21EncryptAlign data))) := by
+      have := otfad_kb_encryptImage (c := c) (sb21E start end_ key ctr) hEwf address ha16 hcE (zeroPad sb21EncryptAlign data) swap
+      have hcond : end_ &&& otfadFlagADE ≠ 0 ∧ end_ &&& otfadFlagVLD ≠ 0 := (sb21_and_flags end_).mpr hfl
+      simp only [Sb21.encrypt, sb21_ctorOk_of_wf _ hEwf, Bool.not_true, Bool.false_eq_true, if_false]
+      rw [if_pos hcond, this]
+      exact congrArg _ (sb21_encBlocks_flags start end_ key ctr _ _ swap _ _ _)
+    have hKe : (sb21K start end_ key ctr).isEncrypted = true := by
+      have := sb21_kw_isEncrypted start end_ key ctr
+      simp only [hfl, decide_true] at this
+      exact this
+    have hact : ∀ j, j < blocksFor (zeroPad sb21EncryptAlign data).length →
+        otfadActive [(sb21K start end_ key ctr)] (address + 16 * j) = some (sb21K start end_ key ctr) := by
+      intro j hj
+      simp [otfadActive, hfit j hj, hKe]
+    refine ⟨_, henc, ?_⟩
+    rw [otfad_encBlocks_spec [(sb21K start end_ key ctr)] swap (sb21K start end_ key ctr) _ address (zeroPad sb21EncryptAlign data) rfl hact]
+    have hhw := otfad_spec_hw h [(sb21K start end_ key ctr)] hwf1 hd1 address ha16 (zeroPad sb21EncryptAlign data) swap
+    simp only [List.map_cons, List.map_nil] at hhw
+    have : (otfadHwReadAll c [(sb21K start end_ key ctr).ctx] swap address
+        (otfadSpec c [(sb21K start end_ key ctr)] swap (blocksFor (zeroPad sb21EncryptAlign data).length) address
+          (zeroPad sb21EncryptAlign data))).take data.length =
+        ((otfadHwReadAll c [(sb21K start end_ key ctr).ctx] swap address
+          (otfadSpecImage c [(sb21K start end_ key ctr)] swap address (zeroPad sb21EncryptAlign data))).take
+            (zeroPad sb21EncryptAlign data).length).take data.length := by
+      rw [List.take_take, Nat.min_eq_left hle]; rfl
+    rw [this, hhw, zeroPad_take_self]
+  · -- left plain; the wrapped context is not (VLD and ADE): the engine passes the data through
+    have hEok : (sb21E start end_ key ctr).ctorOk = true := by
+      have := sb21_ctorOk_of_wf _ hwf
+      simp only [KeyBlob.ctorOk, Sb21.blob, sb21E, otfadFlagVLD, otfadFlagADE, otfadKeyFlagMask] at this ⊢
+      simp only [Bool.and_eq_true] at this ⊢
+      exact ⟨⟨this.1.1, by decide⟩, this.2⟩
+    have henc : Sb21.encrypt c start end_ key ctr swap address data = .ok data := by
+      have hn : ¬ (end_ &&& otfadFlagADE ≠ 0 ∧ end_ &&& otfadFlagVLD ≠ 0) := fun hh => hfl ((sb21_and_flags end_).mp hh)
+      simp only [Sb21.encrypt, hEok, Bool.not_true, Bool.false_eq_true, if_false, hn]
+    have hKe : (sb21K start end_ key ctr).isEncrypted = false := by
+      have := sb21_kw_isEncrypted start end_ key ctr
+      simp only [hfl, decide_false] at this
+      exact this
+    refine ⟨data, henc, ?_⟩
+    have hspec : otfadSpecImage c [(sb21K start end_ key ctr)] swap address data = data := by
+      unfold otfadSpecImage
+      apply otfad_spec_none
+      · rfl
+      · intro j _
+        simp [otfadActive, hKe]
+    have hhw := otfad_spec_hw h [(sb21K start end_ key ctr)] hwf1 hd1 address ha16 data swap
+    rw [hspec] at hhw
+    simpa using hhw
 
 /-! ### `keywrap` -/
 
-/-- the wrapped blob unwraps to the blob's registers — whose flags are always VLD|ADE, whatever the low bits of `end` say -/
+/-- the wrapped blob unwraps to the blob's key, counter, range and the flags given in the low bits of `end` -/
 theorem sb21_keywrap_unwraps (h : CryptoLaws c) (start end_ : Nat) (key ctr kek rnd : Bytes)
-    (hwf : (Sb21.blob start end_ key ctr).WF) (hk : kek.length = 16) (hr : rnd.length = 4) :
+    (hwf : (Sb21.blob start end_ key ctr (end_ &&& otfadKeyFlagMask)).WF) (hk : kek.length = 16) (hr : rnd.length = 4) :
     ∃ e, Sb21.keywrap c start end_ key ctr kek rnd = .ok e ∧ e.length = 64 ∧
-      otfadUnwrapEntry c kek 0 e = some ((Sb21.blob start end_ key ctr).ctx, true) := by
-  let kb' : KeyBlob := { Sb21.blob start end_ key ctr with zeroFill := rnd }
+      otfadUnwrapEntry c kek 0 e = some ((Sb21.blob start end_ key ctr (end_ &&& otfadKeyFlagMask)).ctx, true) := by
+  let kb' : KeyBlob := { Sb21.blob start end_ key ctr (end_ &&& otfadKeyFlagMask) with zeroFill := rnd }
   have hwf' : kb'.WF := ⟨hwf.key_len, hwf.ctr_len, hwf.start_al, hwf.range, hwf.end_lt, hwf.flags_lt, hwf.exportable⟩
   obtain ⟨e, he, hl, hu⟩ := keyblob_unwraps h kb' hwf' hr rfl kek hk 0 (by simp) rnd
   have hrne : rnd.isEmpty = false := by
     cases rnd with
     | nil => simp at hr
     | cons _ _ => rfl
-  have hpd : (Sb21.blob start end_ key ctr).plainData rnd = kb'.plainData rnd := by
+  have hpd : (Sb21.blob start end_ key ctr (end_ &&& otfadKeyFlagMask)).plainData rnd = kb'.plainData rnd := by
     simp [KeyBlob.plainData, kb', Sb21.blob, KeyBlob.endAddrWithFlags, hrne, hr]
-  have hctx : (Sb21.blob start end_ key ctr).ctx = kb'.ctx := rfl
+  have hctx : (Sb21.blob start end_ key ctr (end_ &&& otfadKeyFlagMask)).ctx = kb'.ctx := rfl
   refine ⟨e, ?_, hl, by rw [hctx]; exact hu⟩
   simp only [Sb21.keywrap, sb21_ctorOk_of_wf _ hwf, Bool.not_true, Bool.false_eq_true, if_false]
   simp only [KeyBlob.export, hpd] at he ⊢
